@@ -13,6 +13,29 @@ COMPONENTS = {
 }
 
 PROPS = {
+    "C03": {
+        "level": "fault_enumeration",
+        "rule": "run = seeded Boolean circuit (and/or/add/sat_add/sub/gt/geq) over 1..40 records x vector width {1,16,32,256} x bit width 1..120 in DZKP-malicious mode, batched "
+                "(validated_seq_join, 1..16 multiplications per gate, several proof batches incl. a partial last one) or single-proof; first executed honestly (must validate and be correct), "
+                "then re-executed with the same seed while one helper rewrites one chunk it sends, the site drawn from the honest run's channel inventory stratified by step "
+                "(multiplication messages of every bit step, proof shares, challenges, p*q and diff messages); non-trivial iff the rewritten chunk was delivered; distinct by (shape, site, schedule digest)",
+        "scenarios": [
+            {"name": "c03_tamper", "quick": 3000, "thorough": 150000, "offset": 1, "chunk": 40, "run_timeout": 120, "crash_ok": True},
+        ],
+        "expected_probes": ["tamper_rejected_or_aborted", "site_bit", "site_generate_proof", "site_challenge", "site_diff", "site_p_times_q"],
+        "components_real": ["protocol::context::{dzkp_validator, dzkp_malicious, dzkp_field, batcher}, ipa_prf::{malicious_security, validation_protocol}, basics::mul::dzkp_malicious, boolean_ops, Gateway, in-memory transport"],
+    },
+    "C07": {
+        "level": "exploration",
+        "rule": "run = seeded Boolean circuit (and/or/xor/add with carry/sat_add/sub/gt/geq) x vector width {1,16,32,256} x operand widths 1..120 incl. unequal widths x semi-honest/DZKP-malicious x "
+                "batched/single validation; one third of the runs enumerate ALL operand pairs of a width <= 4 across records and lanes, the rest use boundary {0,1,max,max-1,2^k,2^k-1} and random operands; "
+                "every run executes under a seeded schedule policy and seeded gateway knobs; non-trivial iff >=1 multi-choice decision; distinct by (shape, schedule digest)",
+        "scenarios": [
+            {"name": "c07_circ", "quick": 1600, "thorough": 80000, "offset": 1, "chunk": 25, "run_timeout": 120},
+        ],
+        "expected_probes": ["operand_pairs", "exhaustive_small_width", "unequal_widths", "proof_batches"],
+        "components_real": ["protocol::basics::mul::{semi_honest, dzkp_malicious}, protocol::boolean::or, ipa_prf::boolean_ops::{addition_sequential, comparison_and_subtraction_sequential}, DZKP validators, Gateway, PRSS, in-memory transport"],
+    },
     "C05": {
         "level": "exploration",
         "rule": "run = seeded (shards in {1,2,3,5}, row type in {32-bit, 64-bit, 112-bit hybrid report, 32-bit aggregateable report}, 0..80 unique rows, "
@@ -111,6 +134,18 @@ NOT_APPLICABLE = {
 }
 
 MANIFEST_TEXT = {
+    "C03": {
+        "text": "Fault enumeration over the real DZKP validators: every run first executes a seeded Boolean circuit honestly in malicious mode (all three helpers must validate; results must be correct - the 'honest batches are accepted' half), then replays the same seed with one helper rewriting one chunk at a site drawn from the honest run's channel inventory, stratified by step so that multiplication messages of every bit step and every proof message kind are hit. Violation iff both honest helpers validate and (a) the site was a multiplication message, or (b) their shares no longer open to the right result. Sites are sampled, not all enumerated, in the quick tier.",
+        "design_ref": "DESIGN.md section 4, C03",
+        "note": "soundness error of the proof system (~2^-50 over Fp61) is assumed negligible; recorded-state corruption is exercised only through what a deviating sender transmits (F1), not by mutating stored blocks",
+        "technique": "deterministic simulation: honest run + same-seed replay with single-site Byzantine rewriting, channel inventory stratified by protocol step",
+    },
+    "C07": {
+        "text": "Seeded exploration of the real interactive Boolean building blocks on three simulated helpers in semi-honest and DZKP-malicious mode, with record- and bit-parallelism scheduled by the seed. Oracle: big-integer plaintext function of the operands (incl. carry, saturation, truncation/zero-extension of the second operand) and consistency of the three output sharings. Widths <= 4 are enumerated exhaustively; larger widths use boundary and random operands. Sampling beyond that.",
+        "design_ref": "DESIGN.md section 4, C07",
+        "note": "covers multiplication (AND), OR, XOR, add-with-carry, saturating add, subtract, both comparisons at vector widths {1,16,32,256}; field multiplication/PRF/share conversion/aggregation are exercised by the C04 and hybrid scenarios rather than here",
+        "technique": "deterministic simulation: seeded schedule + operand search over the real circuits with a big-integer reference",
+    },
     "C05": {
         "text": "Seeded exploration of the real sharded shuffle (semi-honest and malicious) on 3 helpers x {1,2,3,5} shards under a controlled scheduler, with unique attributable rows and arbitrary shard assignment. Fault-free oracle: the three helpers hold equally many rows per shard, every output row is a consistent replicated sharing, and the union over shards reconstructs exactly the input multiset. Tampered runs (malicious mode): the same seed is re-executed with one chunk of one helper's own MPC or shard-to-shard shuffle traffic rewritten; violation iff both honest helpers return rows on every shard while their shares no longer determine the input multiset (accepted-but-harmless rewrites of padding/trailing bytes are counted, not judged). Sampling, not proof.",
         "design_ref": "DESIGN.md section 4, C05",
